@@ -23,6 +23,10 @@ REVIEWED_ORDER = {
         "strict total order on the elements and the result does not depend on the input order",
 }
 
+# adaptors that select or pair elements by their position in the iteration
+POSITIONAL_ADAPTORS = {"take", "skip", "step_by", "take_while", "skip_while", "map_while", "enumerate", "zip", "scan", "dedup", "dedup_by",
+                       "dedup_by_key", "tuple_windows", "chunks", "peekable", "nth", "last", "first", "interleave", "batching"}
+
 # sorting entry points
 STABLE_SORTS = {"sort", "sort_by", "sort_by_key", "sort_by_cached_key", "sorted", "sorted_by", "sorted_by_key", "sorted_by_cached_key"}
 UNSTABLE_WHOLE_ITEM = {"sort_unstable", "sorted_unstable"}
@@ -171,7 +175,12 @@ def c10(ctx):
                 continue
             has_any = True
             if dest_carrier:
-                continue  # adaptor: the result is checked at its own consumer
+                # adaptor: the result is checked at its own consumer -- unless the adaptor itself selects by position
+                if c["name"] in POSITIONAL_ADAPTORS:
+                    rep.fail("C10.R1", "positional::%s::%s" % (fn.path, c["name"]),
+                             "%s applies %s to a hash-table iterator: which elements pass depends on the iteration order (the per-process hash seed), whatever is done with them afterwards" % (fn.path, c["def"]),
+                             fn.loc(t["line"]))
+                continue
             name = c["name"]
             top = common.top_fn(F, fn)
             n = ordinal.get(name, 0)
